@@ -395,10 +395,50 @@ theorem visSkip_lead (J : List UInt8) (dl : LineDecor) (hJ : visSkip false J = s
     visSkip false (J ++ dl.before ++ dl.indent) = some false := by
   unfold LineDecor.ok at hd
   simp only [Bool.and_eq_true] at hd
-  obtain ⟨⟨⟨⟨hb, hi⟩, _⟩, _⟩, _⟩ := hd
+  obtain ⟨⟨⟨⟨⟨hb, hi⟩, _⟩, _⟩, _⟩, _⟩ := hd
   have h1 : visSkip false dl.before = some false := by
     have := visSkip_insig dl.before 0 hb (by omega)
     simpa using this
   exact visSkip_append _ _ _ _ _ (visSkip_append _ _ _ _ _ hJ h1) (visSkip_blanks _ hi)
+
+/-- the rest of a line behind a section start or end -/
+theorem visSkip_headTrail (tr : List UInt8) (h : headTrailOk tr = true) : visSkip false (tr ++ [10]) = some false := by
+  unfold headTrailOk at h
+  simp only [Bool.or_eq_true] at h
+  rcases h with h | h
+  · exact visSkip_trail tr h
+  · cases tr with
+    | nil => cases h
+    | cons c txt =>
+      simp only [Bool.and_eq_true, beq_iff_eq, Bool.not_eq_eq_eq_not, Bool.not_true] at h
+      obtain ⟨hc, htxt⟩ := h
+      subst hc
+      have hcom : ∀ (t : List UInt8), t.contains 10 = false → visSkip true (t ++ [10]) = some false := by
+        intro t
+        induction t with
+        | nil => intro _; decide
+        | cons c r ih =>
+          intro hc
+          simp only [List.contains_cons, Bool.or_eq_false_iff] at hc
+          have : (c == 10) = false := by
+            cases hh : c == 10
+            · rfl
+            · have : c = 10 := by simpa using hh
+              subst this; simp at hc
+          simp only [List.cons_append, visSkip, this, Bool.false_eq_true, ↓reduceIte]
+          exact ih hc.2
+      have h0 : ((35 : UInt8) == 0) = false := by decide
+      have hsp : isspace 35 = false := by decide
+      simp only [List.cons_append, visSkip, h0, hsp, Bool.false_eq_true, ↓reduceIte, beq_self_eq_true]
+      exact hcom txt htxt
+
+/-- the parts of a valid line decoration -/
+theorem LineDecor.ok_parts (d : LineDecor) (h : d.ok = true) :
+    d.pre.all isBlank = true ∧ d.post.all isBlank = true ∧ trailOk d.trail = true
+      ∧ headTrailOk (headTrail d) = true := by
+  unfold LineDecor.ok at h
+  simp only [Bool.and_eq_true] at h
+  obtain ⟨⟨⟨⟨⟨_, _⟩, h3⟩, h4⟩, h5⟩, h6⟩ := h
+  exact ⟨h3, h4, h5, h6⟩
 
 end Mpt.Parse
